@@ -9,6 +9,7 @@ import GoSandbox.GoLite.Exec
 import GoSandbox.Kernel.WaitStatus
 import GoSandbox.Spec.StatusTable
 import GoSandbox.Gen.C09
+import GoSandbox.Gen.C15
 import GoSandbox.Gen.Consts
 namespace GoSandbox.Model.Classify
 open GoSandbox.GoLite GoSandbox.Kernel GoSandbox.Spec.StatusTable
@@ -16,6 +17,7 @@ open GoSandbox.GoLite GoSandbox.Kernel GoSandbox.Spec.StatusTable
 def glob (n : String) : Option Val :=
   match n with
   | "unix.EINTR" => some (.str "EINTR")
+  | "unix.ESRCH" => some (.str "no such process")
   | _ => (Gen.Consts.table.find? (fun p => p.1 == n)).map (fun p => Val.int (Int.ofNat p.2))
 
 def sigtrap : Nat := Gen.Consts.unix_SIGTRAP
@@ -24,7 +26,12 @@ def sigtrap : Nat := Gen.Consts.unix_SIGTRAP
 structure World where
   log : List String := []
   setOptFails : Bool := false
+  /-- error of PTRACE_GETREGSET in getTrapContext (e.g. "no such process" when the tracee vanished) -/
   trapError : Option String := none
+  /-- the handler's decision for the trapped syscall: 0 allow, 1 ban, 2 kill -/
+  decision : Nat := 0
+  /-- error of PTRACE_SETREGS in skipSyscall -/
+  skipError : Option String := none
   utimeNs : Int := 0
 deriving Repr, Inhabited
 
@@ -51,7 +58,11 @@ def showVal : Val → String
   | .bool b => toString b
   | _ => "_"
 
-def ext (name : String) (args : List Val) (env : Env) (w : World) : Except String (Val × World) :=
+def errVal : Option String → Val
+  | some e => .str e
+  | none => .nil
+
+def extBase (name : String) (args : List Val) (env : Env) (w : World) : Except String (Val × World) :=
   let (recv, m) := splitLast name
   match (match env.get? recv with | some (.int ws) => wsMethod m ws.toNat | _ => none) with
   | some v => .ok (v, w)
@@ -62,9 +73,16 @@ def ext (name : String) (args : List Val) (env : Env) (w : World) : Except Strin
     | "unix.PtraceCont", [pid, sig] => .ok (.nil, { w with log := w.log ++ [s!"cont {showVal pid} {showVal sig}"] })
     | "setPtraceOption", [pid] =>
       .ok (if w.setOptFails then .str "no such process" else .nil, { w with log := w.log ++ [s!"setoptions {showVal pid}"] })
-    | "ph.handleTrap", [pid] =>
-      .ok (match w.trapError with | some e => .str e | none => .nil, { w with log := w.log ++ [s!"handleTrap {showVal pid}"] })
-    | "err.Error", [] => .ok ((env.get? "err").getD .nil, w)
+    | "getTrapContext", [pid] =>
+      .ok (match w.trapError with
+        | some e => .tup [.nil, .str e]
+        | none => .tup [.strct [("pid", pid)], .nil], { w with log := w.log ++ [s!"getregs {showVal pid}"] })
+    | "ph.Handler.Handle", [_] => .ok (.int w.decision, { w with log := w.log ++ ["handle"] })
+    | "ctx.skipSyscall", [] => .ok (errVal w.skipError, { w with log := w.log ++ ["skip"] })
+    | "err.Error", [] => .ok (match (env.get? "err").getD .nil with
+        | .int 5 => .str "Disallowed Syscall"
+        | .int n => .str s!"status:{n}"
+        | v => v, w)
     | "reply.Error.Error", [] => .ok (.str "reply-error", w)
     | "time.Now", [] => .ok (.nil, w)
     | "time.Since", _ => .ok (.nil, w)
@@ -75,6 +93,19 @@ def ext (name : String) (args : List Val) (env : Env) (w : World) : Except Strin
     | "unix.Wait4", _ => .ok (.tup [.int 0, .nil], w)
     | "fmt.Sprintf", (.str f) :: _ => .ok (.str f, w)
     | _, _ => .error s!"unknown call {name}"
+
+def cfg0 : Cfg World := { ext := extBase, glob := glob }
+
+/-- `ph.handleTrap(pid)` is itself the regenerated function, run in the same world -/
+def ext (name : String) (args : List Val) (env : Env) (w : World) : Except String (Val × World) :=
+  match name, args with
+  | "ph.handleTrap", [pid] =>
+    let f := Gen.C15.handleTrap
+    match runBody cfg0 f.results f.body [("pid", pid), ("ph", (env.get? "ph").getD .nil)] w 500 with
+    | .ok (some [v], _, w) => .ok (v, w)
+    | .ok (_, _, _) => .error "handleTrap did not return a value"
+    | .error e => .error e
+  | _, _ => extBase name args env w
 
 def cfg : Cfg World := { ext := ext, glob := glob }
 
@@ -95,7 +126,7 @@ def strOf : Val → String
 
 def runPtrace (pgid pid ws : Nat) (execved tracedAlready : Bool) (w : World) : Except String PtraceOut := do
   let traced : Val := .strct (if tracedAlready then [(toString pid, .bool true)] else [])
-  let ph : Val := .strct [("pgid", .int pgid), ("traced", traced), ("execved", .bool execved), ("fTime", .nil), ("Handler", .nil)]
+  let ph : Val := .strct [("pgid", .int pgid), ("traced", traced), ("execved", .bool execved), ("fTime", .nil), ("Handler", .strct [])]
   let f := Gen.C09.ptraceHandle
   let env : Env := (f.results.map (fun r => (r, match r with
       | "status" | "exitStatus" => Val.int 0
